@@ -117,9 +117,12 @@ def run_c12(rep, tier):
     rep.cov['states_meaning'] = 'graph/order instances covered by unsat verdicts (each merged run covers 2^(unknown edge bits) graphs)'
 
 
+C13_UNIVERSES = [((0, 0), (0, 1), (), ((1,), 2)), (None, 'a', frozenset([1]), 1.5), ('b', ('b',), 0, -1, 'zzz')]
+
+
 def run_c13(rep, tier):
     rep.level = 'model_checking'
-    rep.assumptions += ['all n nodes present; node subsets may name one non-node (except for reachability, whose start set must hold nodes)',
+    rep.assumptions += ['node values: 0..n-1, and three other universes (tuples incl. () and a nested one; None/str/frozenset/float; str/tuple/negative int) at n=4,4,5', 'all n nodes present; node subsets may name one non-node (except for reachability, whose start set must hold nodes)',
                         'runs WITHOUT functional reduction: the solver decides the raw circuits']
     rep.cov['trusted_base'] = TRUSTED
     rep.cov['explanation'] = ('get_reachable_set_from / get_reversed_graph (twice) / get_subgraph / clone executed symbolically on a graph with '
@@ -129,11 +132,14 @@ def run_c13(rep, tier):
     # (raw reachability at n=6 does not finish within 30 min of z3 time: its bound stays 5; the loop-free operations go to 6)
     tasks = [(n, False, w) for n in ns for w in ('reach', 'reverse', 'subgraph', 'clone') if not (w == 'reach' and n > 5)]
     tasks += [(3, True, w) for w in ('reach', 'reverse', 'subgraph', 'clone')]       # folded twin of the same obligations
+    # node values other than small ints: tuples (incl. the empty one and a nested one), None/bool/str/frozenset mixes
+    for u in C13_UNIVERSES:
+        tasks += [(len(u), False, w, u) for w in ('reach', 'reverse', 'subgraph', 'clone')]
     rep.cov['bounds'].update(n_max='5 for reachability, %d for reverse/subgraph/clone' % max(ns), loop_bound='get_reachable_set_from: n iterations, remaining-iteration guard in the query')
     cov = 0
     for t, st, r, secs in pmap(graphs.reach_task, tasks):
-        n, fold, w = t
-        key = '%s n=%d %s' % (w, n, 'folded' if fold else 'raw')
+        n, fold, w = t[:3]
+        key = '%s n=%d %s%s' % (w, n, 'folded' if fold else 'raw', (' nodes=%r' % (t[3],)) if len(t) > 3 else '')
         absorb(rep, t, st, r, secs, key, graphs.c13_replay, '%s on all digraphs with %d nodes x all node subsets' % (w, n))
         if st == 'ok':
             if r.get('shared'):
